@@ -44,3 +44,8 @@ CHECKS['C02'] = dict(
     text='Generated abstract stylesheets (4k quick, 200k thorough) rendered canonically and in 3 random spellings; the DOM projection through public accessors must equal the projection computed from the model, be identical across spellings, lose exactly the comments with parseComments=False and nothing with validate=False. Exploration.',
     note='Trusted: my renderer and expected-projection code (the absolute oracle compares two independent paths from the model), cssutils tokenizer/helper functions as text normalisers; numbers and media lists are generated canonical (C18/C17 own their normalisation); comments in calc() and in margin boxes are listed findings.',
 )
+CHECKS['C03'] = dict(
+    technique='property-based round-trip testing (Hypothesis): serialise -> parse -> project/serialise on generated DOMs, DOMs after generated edit histories, all repository sheets, and node-level set-back of every serialisable node; content alphabet over the character range',
+    text='Round trip (projection equality under lossless preferences + byte fixpoint, default-preference fixpoint) on 1.5k generated+edited sheets, all 50 repository sheets and 3k content cases per quick run (hundreds of thousands thorough), plus node-level set-back for rules, blocks, selectors, media lists and values. Exploration.',
+    note='Trusted: the DOM projection (public accessors), cssutils tokenizer as normaliser; identifiers needing escapes, backslash content and multi-line comments inside blocks are listed findings excluded from the generators and probed by witnesses; empty @font-face/@page compare as absent.',
+)
